@@ -40,6 +40,7 @@ namespace awkward {
   void
   IndexedBuilder<T>::clear() {
     index_.clear();
+    hasnull_ = false;
   }
 
   template <typename T>
